@@ -644,7 +644,8 @@ def run(prop, tier, seed):
         cand.sort(key=lambda i: -(len(cfgs[i].get("cls", [])) or cfgs[i].get("n", 0)))
         pg_ids |= set(cand[:n_pg])
     for i, c in enumerate(cfgs):
-        c["seed"] = r.randint(0, 5000)
+        # negative seeds are seeds too (torch generators accept them)
+        c["seed"] = r.randint(0, 5000) if r.random() < 0.85 else -r.randint(1, 2)
         if c["sampler"] in ("cb", "semi") and len(c["cls"]) >= 2 and r.random() < 0.25:
             perm = list(range(len(c["cls"])))
             r.shuffle(perm)
